@@ -41,7 +41,7 @@ REGISTRY = {
         "engine": "engine_deser",
         "theorems": [(A + "NoCopyThm", "Api.C08_no_copy"), (A + "NoCopyThm", "Api.noCopy_independent"),
                      (A + "TablesThm", "Api.Tables.C08_check_only_table"), (A + "TablesThm", "Api.Tables.C08_fast_path_conditions")],
-        "partial": "independence of no_copy proved on Ty.scope (TypedDict and failing key types outside); constructor override, precomputed method, "
+        "partial": "independence of no_copy proved on Ty.scope (TypedDict outside; any key type since the repair of row 30); constructor override, precomputed method, "
                    "check_type and pass-through are decided by the correspondence / relational checks on the real code",
         "assumptions": MODEL_ASSUMPTIONS,
     },
